@@ -277,29 +277,14 @@ def runMachine (j : Json) : Except String String := do
         let (res, w') := getItem sys 100000 s [i, n] w
         w := w'
         outs := (match res with | .ok v => showVal v | .error e => showErr e) :: outs
-    | "slice" =>   -- series[s][i, 0:n]
-        let mut acc : List String := []
-        let mut failed : Option Machine.Err := none
-        for m in List.range n do
-          if failed.isNone then
-            let (res, w') := getItem sys 100000 s [i, m] w
-            w := w'
-            match res with
-            | .ok v => acc := showVal v :: acc
-            | .error e => failed := some e
-        outs := (match failed with | some e => showErr e | none => "[" ++ String.intercalate "," acc.reverse ++ "]") :: outs
+    | "slice" =>   -- series[s][i, 0:n]: the library's multi-element request (`Machine.getMany`) over the positions in C order
+        let (res, w') := getMany sys 100000 s ((List.range n).map fun m => [i, m]) w
+        w := w'
+        outs := (match res with | .error e => showErr e | .ok vs => "[" ++ String.intercalate "," (vs.map showVal) ++ "]") :: outs
     | "box" =>   -- series[s][:, 0:n]: all elements of the request in C order (first index outermost)
-        let mut acc : List String := []
-        let mut failed : Option Machine.Err := none
-        for a in List.range 2 do
-          for m in List.range n do
-            if failed.isNone then
-              let (res, w') := getItem sys 100000 s [a, m] w
-              w := w'
-              match res with
-              | .ok v => acc := showVal v :: acc
-              | .error e => failed := some e
-        outs := (match failed with | some e => showErr e | none => "[" ++ String.intercalate "," acc.reverse ++ "]") :: outs
+        let (res, w') := getMany sys 100000 s ((List.range 2).flatMap fun a => (List.range n).map fun m => [a, m]) w
+        w := w'
+        outs := (match res with | .error e => showErr e | .ok vs => "[" ++ String.intercalate "," (vs.map showVal) ++ "]") :: outs
     | "pop" => w := w.set s [i, n] none; outs := "ok" :: outs
     | "contains" =>
         let b := match w.get s [i, n] with | some (.val .zero) => false | _ => true
